@@ -42,6 +42,7 @@ def directive_templates(prefixes=(b'', b'-', b'// '), wss=(b'', b'  ')):
             out.append(('write', (head + b'write w', ('sym', ASCII_LINE))))
             out.append(('temp', (head + b'temp t.tmp',)))
             out.append(('temp txtpp', (head + b'temp t.txtpp',)))
+            out.append(('temp txtpp.ext', (head + b'temp t.txtpp.md',)))
             out.append(('tag A', (head + b'tag A',)))
             out.append(('tag AB', (head + b'tag AB',)))
             out.append(('after f', (head + b'after f',)))
